@@ -651,5 +651,17 @@ func c02Getters(c *wk.Ctx, r *rand.Rand, e gen.Env, idx int64) {
 		for i := 0; i < n && i < len(got); i++ {
 			g.eq(fmt.Sprintf("Addrs[%d]", min(i, 1)), []byte(got[i]), want[i])
 		}
+		// hop-by-hop extension header (RFC 8200 4.3): next header, length in 8 octet units not counting the first 8, options
+		units := r.Intn(4)
+		hb := append([]byte{rb(r), byte(units)}, gen.RandBytes(r, 6+8*units+r.Intn(9))...)
+		g.view, g.in = "HopByHopExtensionHeader", hb
+		h := packet.HopByHopExtensionHeader(hb)
+		if !h.IsValid() {
+			g.eq("IsValid", false, true)
+			return
+		}
+		g.eq("NextHeader", h.NextHeader(), hb[0])
+		g.eq("Len", h.Len(), 8+8*units)
+		g.eq("Data", h.Data(), hb[2:8+8*units])
 	}
 }
